@@ -1,6 +1,167 @@
 import Driver.JsonIO
+import Driver.Loc
+import RulioModel.CronHooksLoc
 open Lean
 
-/-- model-side handler for cases whose "kind" starts with "c15." (stub until the property's slice lands) -/
+/-! Model side of the C15 correspondence (kinds `c15.*`): the hooked Location model (`CronHooksLoc`) is run over the
+history; the hook-level events it emits are replayed on the abstract machine (`CronHooks`, the one the theorems are
+about); after every operation the driver reports both, the abstraction of the former, the fragment predicate
+`Plain` of the theorems evaluated on the events, and per registry key the class of event that may have put it out
+of step with the stored scheduled rules. -/
+
+namespace C15
+
+def keyJ (k : RegKey) : Json := match k.1 with | some l => Json.str l | none => Json.null
+
+def regJ (r : Reg) : Json :=
+  Json.arr (r.map (fun (k, e) => Json.arr #[keyJ k, Json.str k.2, Json.str e.sched, Json.str e.loc])).toArray
+
+def trigS : Trig → String
+  | .notRule => "notRule" | .noMatch => "noMatch" | .runs => "runs"
+
+def itemsJ (its : Items) : Json :=
+  Json.arr (its.map (fun (k, it) => Json.arr #[Json.str k.1, Json.str k.2, Json.str it.sched, Json.str (trigS it.trig)])).toArray
+
+def evS : AEv → String
+  | .add l i it => s!"add {l} {i} sched={it.sched} trig={trigS it.trig}"
+  | .remTop l i => s!"remTop {l} {i}"
+  | .drop l ids => s!"drop {l} {ids}"
+  | .clear l => s!"clear {l}"
+  | .load l docs => s!"load {l} {docs.map (fun d => (d.1, d.2.sched))}"
+  | .cronReset => "cronReset"
+  | .tick k en co => s!"tick {k.1}/{k.2} en={en} co={co}"
+
+def sortS (l : List String) : List String := l.mergeSort (fun a b => !(b < a))
+
+def itemsKey (its : Items) : List String :=
+  sortS (its.map (fun (k, it) => s!"{k.1}\x00{k.2}\x00{it.sched}\x00{trigS it.trig}"))
+def regKeyS (r : Reg) : List String :=
+  sortS (r.map (fun (k, e) => s!"{k.1}\x00{k.2}\x00{e.sched}\x00{e.loc}"))
+
+/-- which registry keys an event may put out of step with the stored scheduled rules, by class
+(the complement of `Plain`, per key; side-effect deletions, Clear, Load and lost one-shots are tagged by the
+hooked model itself, which knows why a fact disappeared) -/
+def blame (a : ASys) : AEv → List (RegKey × String)
+  | .add loc id it =>
+    (match aGet a.items (loc, id) with
+     | some old => if old.sched != "" && it.sched == "" then [(keyOf a.cfg loc id, "overwrite-unscheduled")] else []
+     | none => []) ++
+    (if !a.cfg.byLoc && it.sched != "" && a.items.any (fun p => p.1.2 == id && p.1.1 != loc && p.2.sched != "")
+     then [((none, id), "shared-id")] else [])
+  | .load loc docs =>
+    if a.cfg.byLoc then [] else
+    (docs.filter (fun d => d.2.sched != "" && a.items.any (fun p => p.1.2 == d.1 && p.1.1 != loc && p.2.sched != ""))).map
+      (fun d => ((none, d.1), "shared-id"))
+  | _ => []
+
+structure DS where
+  cs : CS
+  a : ASys
+  names : List String
+  plain : Bool := true
+  blames : List (RegKey × String) := []
+  nlog : Nat := 0
+  ntags : Nat := 0
+  ncalls : Nat := 0
+
+def snapJ (cs : CS) (names : List String) : Json :=
+  Json.mkObj (names.filterMap (fun n => (cs.sys.get? n).map (fun l => (n, snapshotJ l))))
+
+def tagsJ (l : List (RegKey × String)) : Json :=
+  Json.arr (l.map (fun (k, c) => Json.arr #[keyJ k, Json.str k.2, Json.str c])).toArray
+
+/-- replay the events emitted since the last operation on the abstract machine; report -/
+def settle (d : DS) (out : Json) : DS × Json :=
+  let newEvs := d.cs.log.drop d.nlog
+  let newTags := d.cs.tags.drop d.ntags
+  let (a, plainStep, bl) := newEvs.foldl (fun (acc : ASys × Bool × List (RegKey × String)) ev =>
+    let (a, p, bl) := acc
+    (step a ev, p && Plain a ev, bl ++ blame a ev)) (d.a, true, [])
+  let absB : Items := d.names.flatMap (fun n => match d.cs.sys.get? n with | some l => absLoc l | none => [])
+  let absOK := itemsKey absB == itemsKey a.items
+  let regOK := regKeyS d.cs.reg == regKeyS a.reg
+  let specEq := regKeyS a.reg == regKeyS (storedList a)
+  let plain := d.plain && plainStep
+  let blames := d.blames ++ bl ++ newTags
+  let aj := Json.mkObj ([
+    ("absOK", Json.bool absOK), ("regOK", Json.bool regOK), ("plain", Json.bool plain), ("specEq", Json.bool specEq),
+    ("events", Json.arr (newEvs.map (fun e => Json.str (evS e))).toArray),
+    ("stored", regJ (storedList a))] ++
+    (if absOK && regOK then [] else [("items", itemsJ a.items), ("absB", itemsJ absB), ("reg", regJ a.reg)]))
+  let out := out.setObjVal! "reg" (regJ d.cs.reg) |>.setObjVal! "snap" (snapJ d.cs d.names)
+    |>.setObjVal! "a" aj |>.setObjVal! "blame" (tagsJ blames) |>.setObjVal! "odd" (Json.bool d.cs.odd)
+    |>.setObjVal! "calls" (Json.arr ((d.cs.calls.drop d.ncalls).map (fun c => Json.arr (c.map Json.str).toArray)).toArray)
+  ({ d with a := a, plain := plain, blames := blames, nlog := d.cs.log.length, ntags := d.cs.tags.length,
+             ncalls := d.cs.calls.length }, out)
+
+def withExpires (op : Json) (o : Obj) (now : Int) : Obj :=
+  if jhas op "expiresIn" then Obj.set o "expires" (.num (now + jint op "expiresIn")) else o
+
+def stepC15 (d : DS) (op : Json) : DS × Json :=
+  let n := jstr op "loc"
+  let now := jint op "now"
+  let c : Ctx := {}
+  let id := jstr op "id"
+  let cfg := d.cs.cfg
+  let fin (cs : CS) (out : Json) : DS × Json := settle { d with cs := cs } out
+  match jstr op "op" with
+  | "addFact" =>
+    if !jobjOK op "fact" then fin d.cs (errJ "input") else
+    let (cs, r) := d.cs.at n (hAddFact cfg c id (withExpires op (jobj op "fact") now) now); fin cs (res r Json.str)
+  | "addRule" =>
+    if !jobjOK op "rule" then fin d.cs (errJ "input") else
+    let (cs, r) := d.cs.at n (hAddRule cfg c id (withExpires op (jobj op "rule") now) now); fin cs (res r Json.str)
+  | "remFact" => let (cs, r) := d.cs.at n (hRemFact cfg c id now); fin cs (res r Json.str)
+  | "remRule" => let (cs, r) := d.cs.at n (hRemRule cfg c id now); fin cs (res r Json.str)
+  | "enableRule" =>
+    let (cs, r) := d.cs.at n (hEnableRule cfg c id (jbool op "enable") now); fin cs (res r (fun _ => Json.bool true))
+  | "clear" => let (cs, r) := d.cs.at n (hClear cfg c now); fin cs (res r (fun _ => Json.bool true))
+  | "reload" => let (cs, r) := hReload d.cs n now; fin cs (res r (fun _ => Json.bool true))
+  | "restart" => let (cs, r) := hRestart d.cs d.names now; fin cs (res r (fun _ => Json.bool true))
+  | "sleep" => fin d.cs (okJ (Json.bool true))
+  | "fireAll" =>
+    -- the wall clock passes every schedule: each registered job fires (oldest registration first)
+    let cs := (d.cs.reg.reverse.map (·.1)).foldl (fun cs k => (hTick cs k now).1) d.cs
+    fin cs (okJ (Json.bool true))
+  | "tick" =>
+    let key : RegKey := if cfg.byLoc then (some n, id) else (none, id)
+    let (cs, t) := hTick d.cs key now
+    let out := Json.mkObj ([("fired", Json.bool t.fired)] ++
+      (if t.fired then [("sched", Json.str t.sched), ("loc", Json.str t.loc)] else []) ++
+      (match t.tree with | some tr => [("tree", treeJ tr)] | none => []) ++
+      (match t.done with | some e => [("done", Json.str e)] | none => []))
+    fin cs out
+  | _ =>
+    -- operations that call no top-level Add/Rem (reads, ordinary events): the hook-free model; facts may expire
+    match d.cs.sys.get? n with
+    | none => fin d.cs (errJ "notFound")
+    | some l =>
+      let (sys', out) := stepOp d.cs.sys op
+      let cs1 := { d.cs with sys := sys' }
+      match sys'.get? n with
+      | none => fin cs1 out
+      | some l' =>
+        let h := logGone cfg { loc := l', reg := cs1.reg, log := cs1.log, tags := cs1.tags, calls := cs1.calls, odd := cs1.odd } l.st.facts "" now
+        fin { cs1 with log := h.log, tags := h.tags } out
+
+def handleHist (c : Json) : Json :=
+  let kind := if jstr c "state" == "linear" then Kind.linear else Kind.indexed
+  let names := (jarr c "locs").filterMap (fun j => j.getStr?.toOption)
+  let names := if names.isEmpty then ["A"] else names
+  let cj := jget c "cron"
+  let cfg : CronCfg := if jstr c "mode" == "real" then ⟨false, false⟩ else ⟨jbool cj "persistent", jbool cj "byLoc"⟩
+  let sys0 : Sys := names.map (fun n => (n, { name := n, st := { kind := kind }, maxFacts := 1000 }))
+  let d0 : DS := { cs := { sys := sys0, cfg := cfg }, names := names,
+                   a := ASys.init (match kind with | .linear => .linear | .indexed => .indexed) cfg }
+  let (_, outs) := (jarr c "ops").foldl (fun (acc : DS × List Json) op =>
+    let (d, o) := stepC15 acc.1 op
+    (d, acc.2 ++ [o])) (d0, [])
+  Json.mkObj [("outs", Json.arr outs.toArray)]
+
+end C15
+
+/-- model-side handler for cases whose "kind" starts with "c15." -/
 def handleC15 (kind : String) (c : Json) : Json :=
-  Json.mkObj [("err", Json.str ("unknown kind " ++ kind))]
+  match kind with
+  | "c15.hist" | "c15.sys" => C15.handleHist c
+  | _ => Json.mkObj [("err", Json.str ("unknown kind " ++ kind))]
